@@ -291,6 +291,169 @@ fn cmd_panic(args: &[String]) {
     );
 }
 
+fn cmd_c12(args: &[String]) {
+    // c12 <seed> <max_freeze_points>
+    use conc::*;
+    use hooks::{Policy, Verdict};
+    let max_k: u64 = args[1].parse().unwrap();
+    silence_panics();
+    hooks::install();
+    let mut runs = 0u64;
+    let mut found = 0u64;
+    let mut max_reader_steps = 0u64;
+    let mut frozen_inside_cs = 0u64;
+    let mut samples = Vec::new();
+    // (name, hasher, cap, prefill, writer op)
+    let scenarios: Vec<(&str, u8, u64, Vec<u32>, COp)> = vec![
+        ("insert new key into a list bin", types::H_SAMEBIN, 16, (0..4).collect(), COp::Insert(5, 50)),
+        ("replace a value in a list bin", types::H_SAMEBIN, 16, (0..4).collect(), COp::Insert(2, 51)),
+        ("remove from a list bin", types::H_SAMEBIN, 16, (0..4).collect(), COp::Remove(1)),
+        ("compute_if_present (replace) in a list bin", types::H_SAMEBIN, 16, (0..4).collect(), COp::Compute(2, 1)),
+        ("compute_if_present (remove) in a list bin", types::H_SAMEBIN, 16, (0..4).collect(), COp::Compute(2, 0)),
+        ("clear", types::H_IDENTITY, 16, (0..6).collect(), COp::Clear),
+        ("insert that triggers a resize", types::H_IDENTITY, 8, (0..11).collect(), COp::Insert(11, 52)),
+        ("reserve (resize of a populated table)", types::H_IDENTITY, 8, (0..9).collect(), COp::Reserve(40)),
+        ("insert that treeifies a bin", types::H_ZERO, 64, (0..8).collect(), COp::Insert(8, 53)),
+        ("insert into a tree bin", types::H_ZERO, 64, (0..12).collect(), COp::Insert(12, 54)),
+        ("remove from a tree bin (restructuring)", types::H_ZERO, 64, (0..12).collect(), COp::Remove(3)),
+        ("remove that untreeifies a bin", types::H_ZERO, 64, (0..9).collect(), COp::Remove(0)),
+        ("retain on a tree bin", types::H_ZERO, 64, (0..12).collect(), COp::Retain(2)),
+        ("resize that splits a tree bin", types::H_HIGH, 64, (0..47).collect(), COp::Insert(47, 55)),
+    ];
+    let readers = vec![COp::Get(2), COp::Get(99), COp::ContainsKey(1), COp::GetKeyValue(3), COp::Iter, COp::Len];
+    for (name, hasher, cap, prefill, wop) in &scenarios {
+        for rop in &readers {
+            let mut k = 1u64;
+            loop {
+                let prog = Program {
+                    hasher: *hasher,
+                    cap: *cap,
+                    prefill: prefill.clone(),
+                    threads: vec![vec![wop.clone()], vec![rop.clone()]],
+                    universe: 100,
+                    batch: 1,
+                    pin: false,
+                    linger: 0,
+                };
+                let opts = RunOpts { policy: Policy::Prefer(0), step_limit: 400_000, freeze: Some((0, k, 1)) };
+                let r = with_hasher!(*hasher, S, { run_program::<S>(&prog, opts) });
+                runs += 1;
+                max_reader_steps = max_reader_steps.max(*r.steps_of.get(1).unwrap_or(&0));
+                if r.lock_waits > 0 {
+                    frozen_inside_cs += 1;
+                }
+                let mut fails: Vec<String> = r.failures.iter().filter(|f| f.starts_with("C12") || f.starts_with("panic")).cloned().collect();
+                if r.verdict == Verdict::StepLimit {
+                    fails.push("C12: the read did not finish within the step limit while the writer was suspended".into());
+                }
+                if *r.steps_of.get(1).unwrap_or(&0) > 5000 {
+                    fails.push(format!("C12: the read needed {} of its own steps", r.steps_of[1]));
+                }
+                for f in fails.iter().take(1) {
+                    found += 1;
+                    println!("FOUND C12 writer `{}` suspended after {} steps, reader {:?} || {}", name, k, rop, f);
+                }
+                if samples.len() < 4 && k == 7 {
+                    samples.push(format!("writer `{}` suspended after {} of its steps; reader {:?} finished in {} steps", name, k, rop, r.steps_of.get(1).unwrap_or(&0)));
+                }
+                // stop once the writer finished before reaching its k-th yield point
+                let writer_steps = *r.steps_of.get(0).unwrap_or(&0);
+                if writer_steps < k || k >= max_k {
+                    break;
+                }
+                k += 1;
+            }
+        }
+    }
+    println!(
+        "JSON {}",
+        json!({"runs": runs, "scenarios": scenarios.len(), "readers": readers.len(), "found": found,
+               "max_reader_steps": max_reader_steps, "samples": samples, "runs_with_lock_waits": frozen_inside_cs})
+    );
+}
+
+fn cmd_atomics(args: &[String]) {
+    // atomics <gen.json>: the orderings actually passed at executed sites vs. the static table
+    let gen = std::fs::read_to_string(&args[0]).expect("gen.json");
+    let gen: serde_json::Value = serde_json::from_str(&gen).expect("gen.json parse");
+    let mut table: Vec<(String, u32, String, String, String)> = Vec::new(); // file, line, method, ords, fn
+    for r in gen["atomics"].as_array().unwrap() {
+        table.push((
+            r["file"].as_str().unwrap().to_string(),
+            r["line"].as_u64().unwrap() as u32,
+            r["method"].as_str().unwrap().to_string(),
+            r["ords"].as_str().unwrap().to_string(),
+            r["fn"].as_str().unwrap().to_string(),
+        ));
+    }
+    silence_panics();
+    hooks::install();
+    // workload: sequential cases of all flavours + a few scheduled programs, everything recorded
+    let mut seen: std::collections::BTreeMap<(String, u32, String, String), u64> = std::collections::BTreeMap::new();
+    let mut record = |log: hooks::ThreadLog| {
+        for o in log.ops {
+            if !o.file.contains("/repo/src/") && !o.file.starts_with("src/") {
+                // an Atomic::clone made inside std (vec![Atomic::null(); n] in Table::new): the
+                // caller location is std's; these are copies of a null pointer of a private table
+                continue;
+            }
+            let file = o.file.rsplit("/src/").next().unwrap_or(o.file).to_string();
+            let kind = match o.kind {
+                flurry::verif::Kind::Load => "load",
+                flurry::verif::Kind::Store => "store",
+                flurry::verif::Kind::Swap => "swap",
+                flurry::verif::Kind::Cas => "compare_exchange",
+                flurry::verif::Kind::Rmw => "rmw",
+                flurry::verif::Kind::CloneLoad => "clone",
+            };
+            let ords = match o.ord_fail {
+                Some(f) => format!("{:?},{:?}", o.ord, f),
+                None => format!("{:?}", o.ord),
+            };
+            *seen.entry((file, o.line, kind.to_string(), ords)).or_insert(0) += 1;
+        }
+    };
+    let mut rng = types::SplitMix64(7);
+    for i in 0..60u64 {
+        let mut crng = rng.fork();
+        let case = if i % 3 == 0 { seq::gen_tree_case(&mut crng, i) } else { seq::gen_case(&mut crng, i, i % 2 == 0) };
+        hooks::clear_log();
+        hooks::set_mode(hooks::Mode::Record);
+        let _ = with_hasher!(case.hasher, S, { seq::run_case::<S>(&case) });
+        hooks::set_mode(hooks::Mode::Off);
+        record(hooks::take_log());
+    }
+    let total: u64 = seen.values().sum();
+    let wrappers: Vec<(String, String)> = table
+        .iter()
+        .filter(|t| ["bin", "cas_bin", "store_bin", "next_table"].contains(&t.4.as_str()))
+        .map(|t| (t.2.clone(), t.3.clone()))
+        .collect();
+    let mut unlisted = Vec::new();
+    let mut matched = 0u64;
+    for ((file, line, kind, ords), n) in &seen {
+        let hit = table.iter().any(|t| {
+            &t.0 == file
+                && (t.1 as i64 - *line as i64).abs() <= 25
+                && (&t.3 == ords || (kind == "compare_exchange" && !ords.contains(',') && t.3.split(',').next() == Some(ords.as_str())))
+                && (&t.2 == kind || (kind == "rmw" && (t.2 == "fetch_add" || t.2 == "fetch_sub")))
+        }) || wrappers.iter().any(|w| &w.0 == kind && &w.1 == ords);
+        if hit {
+            matched += 1;
+        } else {
+            unlisted.push(format!("{}:{} {} [{}] x{}", file, line, kind, ords, n));
+        }
+    }
+    for u in unlisted.iter().take(5) {
+        println!("FOUND C15 executed atomic operation without a matching row in the static ordering table: {}", u);
+    }
+    println!(
+        "JSON {}",
+        json!({"dynamic_sites": seen.len(), "matched": matched, "unlisted": unlisted.len(), "operations_executed": total,
+               "static_rows": table.len(), "samples": seen.keys().take(4).map(|k| format!("{}:{} {} [{}]", k.0, k.1, k.2, k.3)).collect::<Vec<_>>()})
+    );
+}
+
 fn main() {
     let args: Vec<String> = std::env::args().collect();
     if args.len() < 2 {
@@ -300,6 +463,8 @@ fn main() {
     match args[1].as_str() {
         "api" => cmd_api(&args[2..]),
         "seq" => cmd_seq(&args[2..]),
+        "c12" => cmd_c12(&args[2..]),
+        "atomics" => cmd_atomics(&args[2..]),
         "panic" => cmd_panic(&args[2..]),
         "bulk" => cmd_bulk(&args[2..]),
         "capacity" => cmd_capacity(&args[2..]),
